@@ -873,6 +873,46 @@ def c32(idx: Index, rep: Report, tier: str) -> None:
     rep.count("kind_parameters", nk)
     rep.require_min(rule_k, "kind_parameters", 8)
 
+    # when no engine qualifies the factory raises the no-suitable-engine error: the code that builds the report for
+    # the rejected candidates must accept every engine class the selection itself accepts for that requirement
+    rule_e = "C32.7 sibling error-report-accepts-what-selection-accepts"
+    sel = fac.methods["_engine_satisfies_conditions"]
+    get = fac.methods["_get_engine_class"]
+
+    def issub_classes(stmts):
+        out = set()
+        for st in stmts:
+            if isinstance(st, ast.Assert):
+                for c in ast.walk(st.test):
+                    if isinstance(c, ast.Call) and call_name(c) == "issubclass" and len(c.args) == 2:
+                        for e in (c.args[1].elts if isinstance(c.args[1], ast.Tuple) else [c.args[1]]):
+                            out.add(norm(e).split(".")[-1])
+        return out
+
+    reqs = [a.arg for a in sel.node.args.args if a.arg.endswith("_guarantee") or a.arg.endswith("_kind")]
+    m_sel: Dict[str, Set[str]] = {}
+    for i in walk_no_nested(sel.node):
+        if isinstance(i, ast.If):
+            for test, body in _if_chain(i):
+                classes = issub_classes(body)
+                for c in [c for st in body for c in ast.walk(st) if isinstance(c, ast.Call) and isinstance(c.func, ast.Attribute) and norm(c.func.value) == "EngineClass" and len(c.args) == 1 and isinstance(c.args[0], ast.Name) and c.args[0].id in reqs]:
+                    m_sel.setdefault(c.args[0].id, set()).update(classes)
+    ne = 0
+    for i in walk_no_nested(get.node):
+        if not isinstance(i, ast.If):
+            continue
+        for test, body in _if_chain(i):
+            if not (isinstance(test, ast.Compare) and isinstance(test.left, ast.Name) and test.left.id in m_sel and isinstance(test.ops[0], ast.IsNot)):
+                continue
+            have = issub_classes(body)
+            if not have:
+                continue
+            ne += 1
+            missing = sorted(m_sel[test.left.id] - have)
+            rep.check(not missing, rule_e, f"the report for a rejected candidate accepts every engine class that takes `{test.left.id}`", get.loc(test), construct=f"if {norm(test)}: assert issubclass(EngineClass, {sorted(have)})" + ("" if not missing else f" — selection also accepts {missing}"), detail="" if not missing else f"a candidate of class {missing} that does not meet the requested {test.left.id} is rejected by the selection and then trips this assertion while the error report is built: the caller gets an AssertionError instead of the no-suitable-engine error", function=get.qualname)
+    rep.count("report_assertions", ne)
+    rep.require_min(rule_e, "report_assertions", 2)
+
 
 # ------------------------------------------------------------------------------------ C34
 def c34(idx: Index, rep: Report, tier: str) -> None:
